@@ -21,7 +21,9 @@ import (
 var (
 	c11Chars   = []string{"a", "b", "0", "1", "2", "-", "]", "{", "}", ",", " ", "x", ":", "i"}
 	c11Escs    = []string{`\.`, `\-`, `\]`, `\[`, `\^`, `\{`, `\d`, `\w`, `\s`, `\D`, `\b`, `\/`, `\:`, `\@`, `\\`, `\$`, `\(`, `\|`, `\+`}
-	c11Repeats = []string{"", "", "", "?", "*", "+", "??", "*?", "{0}", "{1}", "{0,1}", "{1,}", "{0,}", "{2}", "{2,3}", "{1,1}", "{0,0}"}
+	c11Repeats = []string{"", "", "", "?", "*", "+", "??", "*?", "{0}", "{1}", "{0,1}", "{1,}", "{0,}", "{2}", "{2,3}", "{1,1}", "{0,0}",
+		// counts with a leading zero: Go's regexp reads these braces as literal text
+		"{01}", "{1,01}", "{02,2}", "{00}", "{0,00}", "{01,}", "{2,2}", "{3,3}"}
 	c11Items   = []string{"a", "b", "0", "9", "-", "a-z", "0-9", "a-a", "+--", "[:digit:]", "[:alpha:]", `\d`, `\w`, `\-`, `\]`, `\.`, "^", "{", ".", "_", " ", "a-b", "0-1"}
 )
 
